@@ -742,14 +742,11 @@ func failc(c *lib.Ctx, class string, cs any, format string, a ...any) {
 	}
 	c.Count("classified_failures:"+class, 1)
 	classMu.Lock()
-	done := classReported[class]
-	classMu.Unlock()
-	if done {
+	defer classMu.Unlock()
+	if classReported[class] {
 		return
 	}
 	if known := c.Fail(class, cs, format, a...); !known {
-		classMu.Lock()
 		classReported[class] = true
-		classMu.Unlock()
 	}
 }
